@@ -274,7 +274,9 @@ func buildC16(tier string) *core.Plan {
 	wides := []any{wideA, wideB, wideC, []any{}, []any{1}}
 	nwd := int64(len(wides))
 	spaces = append(spaces, core.Space{Name: "wide-list-pairs", N: nwd * nwd,
-		Desc: func(i int64) any { return map[string]any{"lengths": []int{len(wides[i/nwd].([]any)), len(wides[i%nwd].([]any))}} },
+		Desc: func(i int64) any {
+			return map[string]any{"lengths": []int{len(wides[i/nwd].([]any)), len(wides[i%nwd].([]any))}}
+		},
 		Run: func(c *core.Ctx, i int64) {
 			c16Check(c, []any{map[string]any{"l": wides[i/nwd], "k": 1}, map[string]any{"l": wides[i%nwd], "k": 1}})
 			c16Check(c, []any{map[string]any{"l": wides[i/nwd]}, map[string]any{"l": wides[i%nwd]}, map[string]any{"l": wides[(i+1)%nwd]}})
@@ -656,7 +658,38 @@ func buildC17(tier string) *core.Plan {
 	rootLists := []any{[]any{"$required"}, []any{1, map[string]any{"a": "$required"}}, []any{[]any{"$required"}, 2}, []any{1, 2}, []any{}, "$required", []any{map[string]any{"a": 1}, "$required", map[string]any{"b": []any{"$required"}}}}
 	lookalike2 := core.Space{Name: "list-rooted-documents", N: int64(len(rootLists)),
 		Desc: func(i int64) any { return []any{rootLists[i]} },
-		Run:  func(c *core.Ctx, i int64) { c17Check(c, []any{rootLists[i]}) }}
+		Run: func(c *core.Ctx, i int64) {
+			c17Check(c, []any{rootLists[i]})
+			// and through the bklr command itself
+			dir := scratchDir()
+			defer os.RemoveAll(dir)
+			if writeDoc(dir, "in.yaml", "yaml", rootLists[i]) != nil {
+				return
+			}
+			so, se, code, err := runTool(dir, "bklr", "-f", "json", "in.yaml")
+			if err != nil {
+				return
+			}
+			want, werr := bklr.Required(core.Clone(rootLists[i]))
+			wit := "cli list-rooted " + core.Canon(rootLists[i])
+			if werr != nil {
+				return
+			}
+			if code != 0 {
+				c.Fail("cli-bklr", "fails", wit, se)
+				return
+			}
+			got, perr := c14ParseText("json", so)
+			if want == nil {
+				if perr == nil && got != nil {
+					c.Fail("cli-bklr", "cli-differs-from-library", wit, map[string]any{"stdout": so, "want": want})
+				}
+				return
+			}
+			if perr != nil || !core.EqualLoose(got, want) {
+				c.Fail("cli-bklr", "cli-differs-from-library", wit, map[string]any{"stdout": so, "want": want})
+			}
+		}}
 	cliTrees := gen.Filter(gen.Trees(a, 3), gen.IsMap)
 	nc := int64(len(cliTrees))
 	cli := core.Space{Name: "cli", N: nc * nc,
